@@ -43,7 +43,7 @@ pub fn gen(rng: &mut Rng) -> SchedCase {
 		seed: rng.next_u64(),
 		warm: rng.usize_below(2),
 		callbacks: rng.urange(2, 6),
-		switch_prob: *rng.pick(&[0.1, 0.3, 0.6, 0.9]),
+		switch_prob: *rng.pick(&[0.03, 0.1, 0.3, 0.6, 0.9]),
 		sound: rng.chance(0.4),
 	}
 }
